@@ -1,5 +1,6 @@
 import Moyo.Proofs.Identify
 import Moyo.Proofs.IdentifySolve
+import Moyo.Proofs.IdentifyAffine
 import Moyo.Proofs.IdentifyTables
 import Moyo.Proofs.IdentifyTableRows
 /-
@@ -29,18 +30,30 @@ theorem identify_sound (ops : List OpQ) (setting : SettingQ) (eps : Rat) (sg : S
       ∃ s : Q3, sg.shift = (sg.linear.applyQ s).map ratTruncFrac ∧
         ∀ g ∈ gens, ∃ o ∈ ops, sg.linear.mul g.rot = o.rot.mul sg.linear ∧
           Within (residual g (sg.linear.adj.applyQ o.trans) s) eps := by
-  unfold identify identifyFrom at h
-  split at h
-  · simp at h
-  · rename_i pg hpg
-    have hdet := pointGroupNew_det hpg
-    split at h
-    · rename_i r hr
-      subst h
-      obtain ⟨hi, hmem, hi2⟩ := List.exists_of_findSome?_eq_some hr
-      obtain ⟨hh, he, hd, hg⟩ := tryHall_ok hdet hi2
-      exact ⟨by rw [hh]; exact hmem, he, hd, hg⟩
-    · simp at h
+  obtain ⟨hm, he, hd, gens, hg, hmatch⟩ := identify_match h
+  obtain ⟨s, hs, hgs⟩ := match_sound hd hmatch
+  exact ⟨hm, he, hd, gens, hg, s, hs, fun g hgm => hgs g (by simpa using hgm)⟩
+
+/-- **Soundness, affine form.**  With `conjTrans P p (R, t) = P⁻¹ (R p + t − p)` — the translation
+part of `(P, p)⁻¹ (R, t) (P, p)` — a returned `(number, h, (P, p))` conjugates, for every tabulated
+primitive generator `(R_db, t_db)` of `h`, some input operation `(R, t)` onto it: `P R_db = R P`
+exactly and `conjTrans − t_db` is within `eps` of an integer vector in every component. -/
+theorem identify_sound_affine (ops : List OpQ) (setting : SettingQ) (eps : Rat) (sg : SpaceGroup)
+    (h : identify ops setting eps = .ok sg) :
+    sg.linear.det = 1 ∧
+    ∃ gens, hallPrimGens? sg.hall = some gens ∧
+      ∀ g ∈ gens, ∃ o ∈ ops, sg.linear.mul g.rot = o.rot.mul sg.linear ∧
+        Within ((conjTrans sg.linear sg.shift o).sub g.trans) eps := by
+  obtain ⟨_, _, hd, gens, hg, hmatch⟩ := identify_match h
+  exact ⟨hd, gens, hg, fun g hgm => match_affine hd hmatch g (by simpa using hgm)⟩
+
+/-- Non-vacuity of `identify_sound_affine`: P-1 with the inversion centre at `(1/4, 1/6, 0)`: the returned
+origin shift is `(1/4, 1/6, 0)` and conjugates the inversion onto the tabulated `(-1, 0)` exactly. -/
+example :
+    (identify [⟨M3.one, ⟨0, 0, 0⟩⟩, ⟨M3.one.neg, ⟨1 / 2, 1 / 3, 0⟩⟩] .spglib (1 / 100000000)).toOption.map
+      (fun sg => (sg.number, sg.shift, conjTrans sg.linear sg.shift ⟨M3.one.neg, ⟨1 / 2, 1 / 3, 0⟩⟩)) =
+    some (2, ⟨1 / 4, 1 / 6, 0⟩, ⟨0, 0, 0⟩) := by
+  decide +kernel
 
 /-- Non-vacuity of `identify_sound`: the model identifies the tabulated operations of Hall number 7
 (`P 2c`, P2₁ unique axis c) as type 4 in the Spglib setting 6 (`P 2yb`), through a correction matrix. -/
